@@ -167,7 +167,7 @@ class Tap:
 # ----------------------------------------------------------------------------------------------- scenarios
 SMALL = [b'', b'a', b'hello world', b'a' * 3000, b'0123456789' * 300, bytes(range(256)) * 9, b'zz' * 5000, b'new-1', b'new-2' * 700]
 OPS = ['add_object', 'add_streamed_object', 'add_to_pack', 'add_to_pack_z_noholes', 'pack_all_loose', 'pack_all_loose_per_pack_z',
-       'clean_storage', 'delete', 'repack', 'pack_then_clean']
+       'clean_storage', 'delete', 'repack', 'pack_then_clean', 'pack_all_loose_nofsync', 'add_to_pack_nofsync', 'import_same_hash']
 
 
 def prepare(folder, rng):
@@ -202,6 +202,18 @@ def do_op(c, op, model, rng):
         c.pack_all_loose()
     elif op == 'pack_all_loose_per_pack_z':
         c.pack_all_loose(compress=CompressMode.YES, clean_loose_per_pack=True)
+    elif op == 'pack_all_loose_nofsync':
+        # do_fsync=False gives up the power-loss guarantee (C06) but not the crash guarantee (C05 / C17)
+        c.pack_all_loose(do_fsync=False, clean_loose_per_pack=rng.random() < .5)
+    elif op == 'add_to_pack_nofsync':
+        c.add_objects_to_pack(new, do_fsync=False, compress=rng.random() < .5)
+    elif op == 'import_same_hash':
+        src = Container(os.path.join(os.path.dirname(c.get_folder()), 'import_source'))
+        if not src.is_initialised:
+            src.init_container(hash_type=ht, pack_size_target=4000)
+            src.add_objects_to_pack(new, compress=True)
+        c.import_objects(src.list_all_objects(), src)
+        src.close()
     elif op == 'clean_storage':
         c.clean_storage()
     elif op == 'delete':
@@ -220,7 +232,7 @@ def plan(op, model, ht):
         adding = {digest(ht, new[0]): new[0]}
     elif op == 'add_streamed_object':
         adding = {digest(ht, new[1]): new[1]}
-    elif op.startswith('add_to_pack'):
+    elif op.startswith('add_to_pack') or op == 'import_same_hash':
         adding = {digest(ht, b): b for b in new}
     targets = set(sorted(model)[:3]) if op == 'delete' else set()
     return targets, adding
@@ -266,7 +278,9 @@ def check_state(prop, folder, model, targets, adding, op, where, ht):
 
 def run(prop, family, seed, index, tier):
     rng = random.Random(f'{family}/{seed}/{index}')
-    op = OPS[index % len(OPS)]
+    # the power-loss property (C06) is stated for the default fsync settings only
+    ops = [o for o in OPS if not (prop == 'C06' and o.endswith('_nofsync'))]
+    op = ops[index % len(ops)]
     root = scratch_root()
     try:
         base = os.path.join(root, 'base')
@@ -297,6 +311,7 @@ def run(prop, family, seed, index, tier):
             tap.install()
             try:
                 do_op(c, op, model, random.Random(oprng_seed))
+                handler(tap.n, 'return of the operation')        # the state the completed operation leaves behind
             finally:
                 tap.uninstall()
             c.close()
